@@ -250,7 +250,7 @@ structure TInv (g : Nat) (s : St) : Prop where
   closed : ∀ i, i < s.nsubs → (s.subs i).status ≠ 0 → SubClosed (s.subs i)
   opened : ∀ i, i < s.nsubs → (s.subs i).status = 0 → SubOpen g (s.subs i)
   obs : (s.gens g).subj.obs = openSubs s
-  count : s.refCount = (openSubs s).length + s.panics
+  count : s.refCount = (openSubs s).length
 
 /-- what a terminal delivery leaves alone -/
 structure TFrame (g : Nat) (s s' : St) : Prop where
@@ -260,7 +260,6 @@ structure TFrame (g : Nat) (s s' : St) : Prop where
   flagC : s'.flagC = s.flagC
   ngens : s'.ngens = s.ngens
   nsubs : s'.nsubs = s.nsubs
-  panics : s'.panics = s.panics
   gens : ∀ k, k ≠ g → s'.gens k = s.gens k
   ssDone : (s'.gens g).ssDone = (s.gens g).ssDone
   ssFins : (s'.gens g).ssFins = (s.gens g).ssFins
@@ -282,7 +281,6 @@ theorem TFrame.trans {g : Nat} {a b c : St} (h1 : TFrame g a b) (h2 : TFrame g b
   flagC := h2.flagC.trans h1.flagC
   ngens := h2.ngens.trans h1.ngens
   nsubs := h2.nsubs.trans h1.nsubs
-  panics := h2.panics.trans h1.panics
   gens := fun k hk => (h2.gens k hk).trans (h1.gens k hk)
   ssDone := h2.ssDone.trans h1.ssDone
   ssFins := h2.ssFins.trans h1.ssFins
@@ -409,7 +407,7 @@ theorem tinv_start {s : St} {g : Nat} (t : Ev) (_ht : t.isTerminal = true) (hi :
           s2 = { (s.modGen g fun x => { x with pStatus := t.code }) with flagE := true } ∨
           s2 = { (s.modGen g fun x => { x with pStatus := t.code }) with flagC := true })
     (s3 : St) (h3 : s3 = s2.modGen g fun x => { x with subj := { x.subj with status := Status.ofTerminal t } }) :
-    TInv g s3 ∧ s3.ngens = s.ngens ∧ s3.nsubs = s.nsubs ∧ s3.panics = s.panics ∧
+    TInv g s3 ∧ s3.ngens = s.ngens ∧ s3.nsubs = s.nsubs ∧
     (∀ k, k ≠ g → s3.gens k = s.gens k) ∧ (s3.gens g).pStatus = t.code ∧ (s3.gens g).pDone = false ∧
     (s3.gens g).pFin = true ∧ (s3.gens g).upSub = true ∧ (s3.gens g).upTorn = false ∧
     (s3.gens g).subj.status = Status.ofTerminal t ∧
@@ -425,7 +423,6 @@ theorem tinv_start {s : St} {g : Nat} (t : Ev) (_ht : t.isTerminal = true) (hi :
   have hsubs : s3.subs = s.subs := by rcases h2 with k | k | k <;> rw [h3, k] <;> rfl
   have hns : s3.nsubs = s.nsubs := by rcases h2 with k | k | k <;> rw [h3, k] <;> rfl
   have hrc : s3.refCount = s.refCount := by rcases h2 with k | k | k <;> rw [h3, k] <;> rfl
-  have hpan : s3.panics = s.panics := by rcases h2 with k | k | k <;> rw [h3, k] <;> rfl
   refine ⟨?_, ?_⟩
   · constructor
     · rcases h2 with k | k | k <;> rw [h3, k] <;> simp [termResetState, hss, hsub]
@@ -438,7 +435,7 @@ theorem tinv_start {s : St} {g : Nat} (t : Ev) (_ht : t.isTerminal = true) (hi :
       exact hopened i (by rw [hns] at hlt; exact hlt) hs
     · rw [hos, ← hobs]
       rcases h2 with k | k | k <;> rw [h3, k] <;> simp [termResetState]
-    · rw [hos, hrc, hpan]; exact hcount
+    · rw [hos, hrc]; exact hcount
   · rcases h2 with k | k | k <;> rw [h3, k] <;>
       simp [termResetState, ha.pDone, ha.pFin, ha.upSub, ha.upTorn, ha.flagE, ha.flagC, ha.ssDone, ha.ssFins, hsub] <;>
       (intro k' hk'; simp [hk'])
@@ -469,7 +466,7 @@ theorem inv_pTerm {cfg : Cfg} {s : St} {g : Nat} (t : Ev) (ht : t.isTerminal = t
   generalize pDecide cfg.flags g t (s.modGen g fun x => { x with pStatus := t.code }) = s2 at h2 hsubj2
   have hopen : (s2.gens g).subj.status = Status.open := by
     rcases h2 with k | k | k <;> rw [k] <;> simp [termResetState, ha.isOpen]
-  obtain ⟨hT, hng, hns, hpan, hgens, hps, hpd, hpf, hup, hut, hst3, hmode⟩ := tinv_start t ht hi hsub ha s2 h2 _ rfl
+  obtain ⟨hT, hng, hns, hgens, hps, hpd, hpf, hup, hut, hst3, hmode⟩ := tinv_start t ht hi hsub ha s2 h2 _ rfl
   have hst : subjTerm cfg.flags g t s2 = subjClear g (bcastTerm cfg.flags g t (s2.modGen g fun x => { x with subj := { x.subj with status := Status.ofTerminal t } })) := by
     unfold subjTerm
     rw [hopen]
